@@ -301,7 +301,7 @@ pub fn stages(ctx: &Ctx) -> Vec<Stage> {
         let cfg = Cfg { t0: 0.25, t1: 0.25 + dt_max * 60.0, dt_min: dt_max * 1e-7, dt_max, tol };
         run_case(rep, solver, &prob, &cfg, if k % 2 == 0 { DimMode::Static } else { DimMode::Dynamic });
     }));
-    let n = ctx.tier.pick(7_000, 2_100_000);
+    let n = ctx.tier.pick(105_000, 2_100_000);
     st.push(Stage::new("random", n, move |i, rep| {
         let mut rng = Rng::for_case(seed, "c03-random", i);
         let solver = Solver::ALL[(i % 7) as usize];
